@@ -174,12 +174,16 @@ func (srv *Server) serve(ctx context.Context, conn net.Conn) error {
 
 // Close gracefully closes the underlaying Postgres server.
 func (srv *Server) Close() error {
+	verifYield("close.enter")
 	if srv.closing.Load() {
 		return nil
 	}
 
+	verifYield("close.decided")
 	srv.closing.Store(true)
 	close(srv.closer)
+	verifYield("close.signalled")
 	srv.wg.Wait()
+	verifYield("close.wait")
 	return nil
 }
